@@ -307,7 +307,10 @@ def run(ctx):
                             "emitted": len(o), "first": o[:4]})
     vio += long_session(ctx, sc, C, dist)
     # ---- directories with a history: a second (third) model written into a directory that was already loaded
+    import time
+    t_h = time.time()
     hv, hcases = dir_histories(ctx, sc, C, dist)
+    dist["dir_history_stage_seconds"] = round(time.time() - t_h, 1)
     vio += hv
     evaluations += dist["dir_history_levels"]
     nontrivial += dist["dir_history_levels_discriminating"]
